@@ -235,8 +235,21 @@ func (p *Path) selectSpecs(i *ssa.Select, site string, chans, sends []Val) {
 	}
 	fx.selectSeen[site] = true
 	c := p.specCtx()
+	nListed := 0
+	for _, item := range splitFields(decl) {
+		if item != "blocking" && item != "nonblocking" && item != "only" {
+			nListed++
+		}
+	}
 	for _, item := range splitFields(decl) {
 		switch {
+		case item == "only":
+			// the select waits for nothing but the listed cases (e.g. no timeout that would let it proceed early)
+			f := "true"
+			if len(i.States) != nListed {
+				f = "false"
+			}
+			p.oblige("enabled", site+".only", fmt.Sprintf("select has exactly the %d listed cases (it has %d)", nListed, len(i.States)), f)
 		case item == "blocking":
 			f := "false"
 			if i.Blocking {
